@@ -9,7 +9,7 @@ REPLAY = os.path.join(VERIF, 'replay')
 HAVE = {'C01', 'C02', 'C16', 'C17', 'C18', 'C03', 'C04', 'C05', 'C06', 'C07', 'C08', 'C09', 'C10', 'C11', 'C12', 'C13', 'C14', 'C15', 'C19', 'C20'}
 RIDS = {'C08': ['C08', 'C08Q'], 'C07': ['C07']}     # replay-crate dispatch ids per property (default: the property id)
 # dispatch ids of the always-run bounded stand-in where it is a module of its own (the witness search keeps the property id)
-BRIDS = {'C15': ['C15E'], 'C02': ['C02E']}
+BRIDS = {'C15': ['C15E'], 'C02': ['C02E'], 'C04': ['C04', 'C04B']}
 _cache = {}
 
 
@@ -164,7 +164,8 @@ BOUNDED = {
                      'every tuple of distinct spot-instrument definitions over 3 exchanges x 4 pairs with shared asset names, every definition order; '
                      'for every exchange map and every global index/name: only own indices translate, to the own exchange name, round trips are identity, '
                      'order requests are addressed to the named instrument; collections with REPEATED definitions (adjacent / non-adjacent / merged lists) through both '
-                     'IndexedInstruments::new and the builder: every distinct definition has exactly one index',
+                     'IndexedInstruments::new and the builder: every distinct definition has exactly one index; the REAL ExecutionBuilder wiring over every arrangement '
+                     'of traded and market-data-only exchanges: a request sent through the returned routing table reaches the client of its own exchange (section shared with C07)',
                 bound={'quick': 'up to 3 exchanges, up to 4 instruments per collection', 'thorough': 'up to 3 exchanges, up to 5 instruments per collection'}),
 }
 
